@@ -40,13 +40,19 @@ type Solver struct {
 	TimeoutMS int
 	Stats     Stats
 	LastError string
+	Logic     string
 	Log       io.Writer // optional transcript
 	seq       int
 }
 
 // New starts the solver. bin e.g. "z3-new", args e.g. ["-in"].
 func New(bin string, args []string, timeoutMS int) (*Solver, error) {
-	s := &Solver{Bin: bin, Args: args, TimeoutMS: timeoutMS}
+	return NewLogic(bin, args, timeoutMS, "")
+}
+
+// NewLogic starts the solver with (set-logic logic) unless logic is empty.
+func NewLogic(bin string, args []string, timeoutMS int, logic string) (*Solver, error) {
+	s := &Solver{Bin: bin, Args: args, TimeoutMS: timeoutMS, Logic: logic}
 	if err := s.start(); err != nil {
 		return nil, err
 	}
@@ -69,6 +75,9 @@ func (s *Solver) start() error {
 	}
 	s.cmd, s.in, s.out = cmd, in, bufio.NewReaderSize(out, 1<<20)
 	s.Send("(set-option :global-declarations true)\n")
+	if s.Logic != "" {
+		s.Send("(set-logic " + s.Logic + ")\n")
+	}
 	if strings.Contains(s.Bin, "z3") && s.TimeoutMS > 0 {
 		s.Send(fmt.Sprintf("(set-option :timeout %d)\n", s.TimeoutMS))
 	}
